@@ -36,6 +36,10 @@ pub struct Container {
 /// - We don't know what we will open
 /// - Pack may be located at end of the reader so we have to check for footer
 pub fn open_as_container_pack(reader: Reader) -> Result<ContainerPack> {
+    // A pack is, at least, a header and its mirrored tail.
+    if reader.size() < Size::new(PackHeader::BLOCK_SIZE as u64) {
+        return Err(ErrorKind::NotAJbk.into());
+    }
     // Check at beginning
     // First try to check without Check as we want a nice message to the user if version has changed.
     // Any other error is not fatal yet: the pack may be located at the end of the reader.
@@ -55,10 +59,17 @@ pub fn open_as_container_pack(reader: Reader) -> Result<ContainerPack> {
             buffer_reader.reverse();
             let end_reader: Reader = buffer_reader.into();
             let pack_header = end_reader.parse_block_at::<PackHeader>(Offset::zero())?;
+            if pack_header.file_size > reader.size() {
+                return Err(format_error!("Pack is bigger than the file (truncated file ?)"));
+            }
             let origin = reader.size() - pack_header.file_size;
             (pack_header, origin.into())
         }
     };
+
+    if pack_header.file_size > reader.size() {
+        return Err(format_error!("Pack is bigger than the file (truncated file ?)"));
+    }
 
     match pack_header.magic {
         PackKind::Container => {
